@@ -18,7 +18,9 @@ EXPLANATION = (
     "one; J3 each yield carries the selected terms and the conjunction of the selected nodes AND the negated unselected nodes; J4 both consumers "
     "(_builtin_findall_base, _builtin_all) conjoin exactly that tuple with target.add_and, drop a combination only when the conjunction is false "
     "(None), build the list from the selected terms in order, and report it with that node; all/3 additionally skips the empty list unless "
-    "allow_none is set (every reporting path of all/3 has established a non-empty list or allow_none), and all_or_none sets it."
+    "allow_none is set (every reporting path of all/3 has established a non-empty list or allow_none), and all_or_none sets it; J5 "
+    "LogicFormula.copy_node, with which findall/3 moves proof branches into the caller's formula, returns the negation of the copied node for a negative literal "
+    "and the copy itself for a positive one, for atoms, conjunctions and disjunctions alike."
 )
 TECHNIQUE = "static analysis: finite-domain evaluation of the selection conditions (constant folding under scenarios), enumeration-shape and consumer wiring rules"
 LEVEL_TEXT = EXPLANATION
@@ -255,6 +257,38 @@ def rule_j4(repo, col):
                **({} if calls else {"construct": "def _builtin_all_or_none", "function": "_builtin_all_or_none"}))
 
 
+def rule_j5(repo, col):
+    """LogicFormula.copy_node (used by findall/3 to move proof branches into the caller's formula) keeps the sign of the copied literal for every node type"""
+    f = repo.func("problog.formula", "LogicFormula.copy_node")
+    m = f.module
+    target, index = f.params[1], f.params[2]
+    paths = dtable.extract(f.node, opaque_loops=True)
+    kinds_src = set()
+    for p in paths:
+        for s_, _, _ in p.conds:
+            if s_.endswith("== 'atom'") or s_.endswith("== 'conj'") or s_.endswith("== 'disj'"):
+                kinds_src.add(s_.rsplit(" == ", 1)[0])
+    if len(kinds_src) != 1:
+        raise AnalysisError("copy_node: node-type dispatch not found (%s)" % sorted(kinds_src))
+    ksrc = kinds_src.pop()
+    n = 0
+    for kind in ("atom", "conj", "disj"):
+        for lit in (5, -5):
+            mapping = [(ksrc, kind), (index, lit), ("self.is_true(%s)" % index, False), ("self.is_false(%s)" % index, False)]
+            ps = [p for p in dtable.compatible(paths, mapping) if p.end == "return"]
+            ps = [p for p in ps if all(dtable.eval_atom(s_, mapping, None) is not None for s_, _, _ in p.conds)]
+            if len(ps) != 1:
+                raise AnalysisError("copy_node: %d decided paths for a %s %s node" % (len(ps), "negated" if lit < 0 else "positive", kind))
+            v = ps[0].value or ""
+            negated = v.startswith("%s.negate(" % target)
+            n += 1
+            col.decide("J5", m, f.node, negated == (lit < 0), "a %s %s node is copied %s" % ("negated" if lit < 0 else "positive", kind, "and negated" if lit < 0 else "as it is"),
+                       "copy_node returns %s for a %s %s node: the copy of a negated literal must be %s.negate(<copy of the node>) for every node type - a proof branch that contains a "
+                       "negated derived atom otherwise enters the findall result with the negation lost" % (v[:70], "negated" if lit < 0 else "positive", kind, target),
+                       construct="copy_node: %s %s" % ("negated" if lit < 0 else "positive", kind), function="LogicFormula.copy_node")
+    col.floor("J5.copy_cases", n, 6)
+
+
 def run(repo, col):
     col.rule("J1", "partition table of _select_sublist (element kind x choice bit)")
     col.rule("J2", "every bit pattern is enumerated exactly once")
@@ -262,3 +296,5 @@ def run(repo, col):
     col.rule("J4", "consumers conjoin the condition, drop only impossible combinations, report list + node")
     rule_j1_j3(repo, col)
     rule_j4(repo, col)
+    col.rule("J5", "copy_node keeps the sign of the copied literal")
+    rule_j5(repo, col)
